@@ -11,6 +11,30 @@ Record cfg := mkCfg { c_batch : Z;      (* MaxUpkeepBatchSize, Go int *)
                       c_limit : N;      (* GasLimitPerReport, uint32 *)
                       c_over  : N }.    (* GasOverheadPerUpkeep, uint32 *)
 
+(* OffchainConfig as decoded from JSON, before defaults (pkg/v3/config/config.go) *)
+Record raw_cfg := mkRaw { rw_lockout : Z;    (* PerformLockoutWindow, int64 ms *)
+                          rw_problen : Z;    (* len(TargetProbability) *)
+                          rw_rounds  : Z;    (* TargetInRounds *)
+                          rw_minconf : Z;    (* MinConfirmations *)
+                          rw_limit   : N;    (* GasLimitPerReport, uint32 *)
+                          rw_over    : N;    (* GasOverheadPerUpkeep, uint32 *)
+                          rw_batch   : Z }.  (* MaxUpkeepBatchSize *)
+
+(* ensureMinimumDefaults; the probability string is represented by its length (the default "0.99999" has 7 bytes) *)
+Definition ensure_defaults (r : raw_cfg) : raw_cfg :=
+  mkRaw (if (rw_lockout r <=? 0)%Z then 1200000%Z else rw_lockout r)
+        (if (rw_problen r =? 0)%Z then 7%Z else rw_problen r)
+        (if (rw_rounds r <=? 0)%Z then 1%Z else rw_rounds r)
+        (if (rw_minconf r <=? 0)%Z then 0%Z else rw_minconf r)
+        (if rw_limit r =? 0 then 5300000 else rw_limit r)
+        (if rw_over r =? 0 then 300000 else rw_over r)
+        (if (rw_batch r <=? 0)%Z then 1%Z else rw_batch r).
+
+(* the configuration Reports works with, given what the operator wrote *)
+Definition cfg_of_raw (r : raw_cfg) : cfg :=
+  let d := ensure_defaults r in mkCfg (rw_batch d) (rw_limit d) (rw_over d).
+Definition effective_cfg (batch : Z) (limit over : N) : cfg := cfg_of_raw (mkRaw 0 0 0 0 limit over batch).
+
 Definition two64 : N := 18446744073709551616.
 Definition w64 (x : N) : N := x mod two64.
 
